@@ -161,7 +161,8 @@ package tcell
 //@   modifies t.cells.cells[*], t.clear, t.Mutex
 
 // Which handler the page gets: a mouse / paste / focus callback is wired to the Go handler exactly when the
-// application asked for that class of events, and to the no-op otherwise (DisableMouse, DisablePaste, DisableFocus
+// application asked for that class of events (MouseDragEvents and MouseMotionEvents include the button events, as
+// their documentation says and as the terminfo screen's modes 1002/1003 do), and to the no-op otherwise (DisableMouse, DisablePaste, DisableFocus
 // and Suspend go through the same functions with the flags cleared).  FuncOf and the Set that installs its result
 // are adjacent in the ghost call log.
 //@ func (*wScreen).enableMouse
@@ -169,7 +170,7 @@ package tcell
 //@   ensures [two] calls(Set) == 2 && calls(FuncOf) == 2
 //@   calls [wired] pair(FuncOf, fn, Set, recv, name, val) ==>
 //@        (name == "onMouseClick" || name == "onMouseMove") &&
-//@        (name == "onMouseClick" ==> isMethodValue(fn, "onMouseEvent") == (f&MouseButtonEvents != 0)) &&
+//@        (name == "onMouseClick" ==> isMethodValue(fn, "onMouseEvent") == (f&(MouseButtonEvents|MouseDragEvents|MouseMotionEvents) != 0)) &&
 //@        (name == "onMouseMove" ==> isMethodValue(fn, "onMouseEvent") == (f&(MouseDragEvents|MouseMotionEvents) != 0)) &&
 //@        (isMethodValue(fn, "onMouseEvent") || isMethodValue(fn, "unset"))
 //@   modifies nothing
